@@ -544,3 +544,43 @@ def run(ck, prog):
     _run_pre_config(ck, prog)
     from sa import config
     config.run_rule(ck, prog, set(DIMENSION_FILES))
+
+
+# ------------------------------------------------------------------ predictions are a function of (forest, x): no ambient source on the predict side
+_run_pre_predict_det = run
+
+
+def predict_determinism(ck, prog):
+    """Same seed => identical predictions: the prediction routines must not observe anything but the fitted forest and the
+    query (no ambient RNG / clock, no iteration in HashMap / HashSet order - a vote tally kept in a hash map breaks ties in a
+    per-process random order)."""
+    rule = "E2b-seeded"
+    cg = flow.CallGraph(prog)
+    rf = flow.RngFlow(prog, cg)
+    for nm, ty in (("classifier", "ensemble::random_forest_classifier::RandomForestClassifier::<T>"),
+                   ("regressor", "ensemble::random_forest_regressor::RandomForestRegressor::<T>")):
+        inst = f"{nm}: no ambient nondeterminism reachable from predict / predict_oob"
+        roots = [f"{ty}::{m}" for m in ("predict", "predict_oob") if f"{ty}::{m}" in prog.bodies]
+        if not roots:
+            ck.violation(rule, inst, ty, "", expected="predict exists", found="anchor vanished")
+            continue
+        reach = cg.reachable(roots)
+        amb = [(f, prog.bodies[f].where(bb), p) for f in sorted(reach) for (bb, p) in rf.ambient_sites.get(f, [])]
+        hsh = flow.hash_order_iterations(prog, sorted(reach))
+        drw = [(f, prog.bodies[f].where(bb), p) for f in sorted(reach) for (bb, p, _) in rf.draws.get(f, [])]
+        if amb or hsh or drw:
+            for (f, w, p) in amb + hsh + drw:
+                ck.violation(rule, inst, f, w, ordinal=p.split("::")[-1], expected="predictions depend on the fitted forest and the query only",
+                             found=f"{p} reachable from predict", path=cg.path_to(roots[0], f))
+        else:
+            ck.ok(rule, inst, roots[0], f"{prog.bodies[roots[0]].loc[0]}:{prog.bodies[roots[0]].loc[1]}",
+                  f"{len(reach)} functions reachable from {len(roots)} root(s), none draws, reads an ambient source or iterates in hash order")
+
+
+def run(ck, prog):
+    _run_pre_predict_det(ck, prog)
+    predict_determinism(ck, prog)
+
+
+EXPLANATION += (" Predict side: nothing reachable from predict / predict_oob draws random numbers, reads an ambient source or "
+                "iterates a HashMap / HashSet in hash order.")
